@@ -66,6 +66,8 @@ type Sim struct {
 	Ctx sdk.Context // uncached context of the committed state at height 1
 	// HypTokens maps a denomination to the raw 32-byte id of its Hyperlane collateral token.
 	HypTokens map[string]string
+	// IGPs are the interchain gas paymasters created at set-up.
+	IGPs []IGP
 }
 
 // Options tweak the genesis before InitChain.
@@ -237,6 +239,26 @@ func (s *Sim) setupHyperlane() error {
 	if err := unpackResp(r, &mbResp); err != nil {
 		return err
 	}
+	// interchain gas paymasters: post-dispatch hooks that charge the sender of a remote transfer, one per
+	// denomination (anybody may create one and name it as the custom hook of a transfer)
+	s.IGPs = nil
+	for _, denom := range HypDenoms {
+		r, err = run(&pdtypes.MsgCreateIgp{Owner: owner, Denom: denom})
+		if err != nil {
+			return err
+		}
+		var igp pdtypes.MsgCreateIgpResponse
+		if err := unpackResp(r, &igp); err != nil {
+			return err
+		}
+		g := IGP{ID: string(igp.Id.Bytes()), Denom: denom, Domain: HypRemoteDomain, Overhead: 7, Price: 3, Rate: 2_500_000_000}
+		if _, err = run(&pdtypes.MsgSetDestinationGasConfig{Owner: owner, IgpId: igp.Id, DestinationGasConfig: &pdtypes.DestinationGasConfig{
+			RemoteDomain: g.Domain, GasOracle: &pdtypes.GasOracle{TokenExchangeRate: math.NewInt(g.Rate), GasPrice: math.NewInt(g.Price)},
+			GasOverhead: math.NewInt(g.Overhead)}}); err != nil {
+			return err
+		}
+		s.IGPs = append(s.IGPs, g)
+	}
 	s.HypTokens = map[string]string{}
 	for _, denom := range HypDenoms {
 		r, err = run(&warptypes.MsgCreateCollateralToken{Owner: owner, OriginMailbox: mbResp.Id, OriginDenom: denom})
@@ -255,6 +277,30 @@ func (s *Sim) setupHyperlane() error {
 		s.HypTokens[denom] = string(tkResp.Id.Bytes())
 	}
 	return nil
+}
+
+// HypRouterGas is the gas the enrolled routers use when a transfer names no gas limit.
+const HypRouterGas = 50000
+
+// IGP describes an interchain gas paymaster of the chain: its quote for a transfer to Domain with gas limit g is
+// (g + Overhead) * Price * Rate / 10^10 of Denom (hyperlane-cosmos QuoteGasPayment).
+type IGP struct {
+	ID                    string // raw 32-byte hook id
+	Denom                 string
+	Domain                uint32
+	Overhead, Price, Rate int64
+}
+
+// Quote is what the paymaster charges for the gas limit (0: the router's).
+func (g IGP) Quote(gas *big.Int) *big.Int {
+	x := new(big.Int).Set(gas)
+	if x.Sign() == 0 {
+		x.SetInt64(HypRouterGas)
+	}
+	x.Add(x, big.NewInt(g.Overhead))
+	x.Mul(x, big.NewInt(g.Price))
+	x.Mul(x, big.NewInt(g.Rate))
+	return x.Quo(x, big.NewInt(10_000_000_000))
 }
 
 // HypDenoms are the denominations with a collateral token.
